@@ -66,4 +66,31 @@ example : lockDisciplineOK [("changeConfig", ["Lock", "defer:Unlock", "call:unsy
     ("handleConfig", ["call:readConfig", "call:readConfig", "call:makeEtag", "call:changeConfig"]),
     ("handleConfigID", ["RLock", "RUnlock"]), ("unsyncedConfigAccess", [])] = false := by decide
 
+/-- the routes of `newAdminHandler` that do not concern the config document -/
+def otherRoutes : List String := [
+  "\"/stop\"|AdminHandlerFunc(handleStop)|0",
+  "\"/debug/pprof/\"|http.HandlerFunc(pprof.Index)|0",
+  "\"/debug/pprof/cmdline\"|http.HandlerFunc(pprof.Cmdline)|0",
+  "\"/debug/pprof/profile\"|http.HandlerFunc(pprof.Profile)|0",
+  "\"/debug/pprof/symbol\"|http.HandlerFunc(pprof.Symbol)|0",
+  "\"/debug/pprof/trace\"|http.HandlerFunc(pprof.Trace)|0",
+  "\"/debug/vars\"|expvar.Handler()|0"]
+
+def cfgRoute : String := "\"/\"+rawConfigKey+\"/\"|AdminHandlerFunc(handleConfig)|0"
+def idRoute : String := "\"/id/\"|AdminHandlerFunc(handleConfigID)|0"
+def moduleRoutes : String := "route.Pattern|route.Handler|2"
+
+/-- the mux of the model (`route`) is the mux of the code, on the local and on the remote
+    endpoint alike: "/config/" → handleConfig and "/id/" → handleConfigID are registered
+    exactly once and outside any conditional of `newAdminHandler` (nesting 0: not under
+    `if remote`); every other built-in route is one of the known ones (none of which lies
+    below /config/ or /id/, so nothing shadows the two handlers); module routes — where
+    caddyconfig's /load and /adapt come from — are added in the loop over the `admin.api`
+    modules -/
+def routesOK (rs : List String) : Bool :=
+  rs.count cfgRoute == 1 && rs.count idRoute == 1 && rs.count moduleRoutes == 1 &&
+  rs.all fun r => r == cfgRoute || r == idRoute || r == moduleRoutes || otherRoutes.contains r
+
+theorem config_routes_match_source : routesOK Gen.adminRoutes = true := by decide
+
 end CaddyModel.C12
